@@ -63,6 +63,7 @@ def handlers : List (String × Handler) :=
     ("c06.terms", C06.termsHandler),
     ("c06.shared", C06.sharedHandler),
     ("c05.matrix", C05.matrixHandler),
+    ("c05.nolimit", C05.matrixHandler),
     ("c05.text", C05.textHandler),
     ("c05.parse", C05.parseHandler) ]
 
